@@ -312,6 +312,15 @@ def handle (d : D) (line : String) : D × String :=
       let (d', out) := doROp d st (.register id key)
       (if out == "ok" then { d' with pids := d'.pids ++ [id] } else d', out)
     | none => bad
+  | ["ppushn", pid, k, key, n, s, fl] =>
+    -- one call of the (variadic) push function with k records: same key / S / flags, N = n, n+1, …
+    match pid.toNat?, k.toNat?, n.toInt? with
+    | some id, some k, some n =>
+      if st.cfg.kind != .reg || !d.pids.contains id || k < 2 || k > 4 || !okKey key || !okStr s || !okFlags fl then bad
+      else
+        let st' := (List.range k).foldl (fun (acc : St) (i : Nat) => (rstep acc (.push id ⟨key, n + (i : Int), s, parseFlags fl⟩)).1) st
+        ({ d with st := some st' }, "ok")
+    | _, _, _ => bad
   | ["ppush", pid, key, n, s, fl] =>
     match pid.toNat?, n.toInt? with
     | some id, some n =>
